@@ -456,6 +456,18 @@ def q3(repo, res, canon, pc, logic):
                             (isinstance(t.ops[0], (ast.Lt, ast.LtE)) and affine(pc, t.comparators[0], wfr) == want
                              and isinstance(t.left, ast.Name) and t.left.id == mx))):
                         ok, why = False, 'the update is not guarded by "arrival > current maximum"'
+    if not ok:
+        # any other spelling: the value returned, merged over the paths of the function, must be
+        # max(0, max over the list of p.aft + io[p.id]/bandwidth - now)
+        from ..norm import push_in
+        from .common import returned_affine
+        tgt = affine(pc, ast.parse('max([0] + [p__.aft + self.io[p__.id] / %s.bandwidth - %s.now for p__ in %s])' % (
+            w.params[2], w.params[1], w.params[3]), mode='eval').body, wfr)
+        got = returned_affine(pc, w, wfr)
+        if got is not None and push_in(got) == tgt:
+            ok = True
+        elif got is not None and not lp:
+            why = 'the wait is %s, not %s' % (short(repr(push_in(got)), 200), short(repr(tgt), 160))
     (res.ok if ok else res.bad)('C03.Q3', w, lp[0] if lp else None,
                                 'wait = max over predecessors of p.aft + io[p.id]/machine.bandwidth - now',
                                 'ok' if ok else why)
